@@ -1188,6 +1188,23 @@ func gen(r *rand.Rand, id int, depth int) Case {
 	case 13:
 		genFat(r, &c, "zarr", 320, 0, 2)
 		return c
+	case 14, 15, 16: // NDJSON (and array) lines beyond bufio.Scanner's default 64 KiB token limit, followed by further spans
+		fm := "znd"
+		if id == 16 {
+			fm = "zarr"
+		}
+		genFat(r, &c, fm, 3+r.Intn(3), 0, []int{2, 0, 3}[id-14])
+		long := 1 + r.Intn(len(c.Zip)-1) // never the last span
+		if long == len(c.Zip)-1 {
+			long--
+		}
+		for k := range c.Zip[long].O {
+			if c.Zip[long].O[k].K == "tags" {
+				c.Zip[long].O[k].V.O = append(c.Zip[long].O[k].V.O, f("blob", js(strings.Repeat("x", 66000+r.Intn(60000)))))
+			}
+		}
+		c.Class = fm + "-long-line"
+		return c
 	}
 	if r.Intn(2) == 0 {
 		genOtlp(r, &c, depth)
